@@ -47,8 +47,9 @@ pub fn gen_set(c: &mut Choices, cfg: &GenCfg) -> SetInfo {
         if tns == from_ns && !tns.is_empty() && c.bool() {
             format!("\"{}\"", simple_of(target_full))
         } else if tns.is_empty() && !from_ns.is_empty() {
-            // a name without namespace cannot be referenced from inside a namespace: use a primitive instead
-            "\"long\"".to_string()
+            // a name without namespace is referenced from inside a namespace with a leading dot
+            // (half of the time; otherwise a primitive stands in)
+            if c.bool() { format!("\".{target_full}\"") } else { "\"long\"".to_string() }
         } else {
             format!("\"{target_full}\"")
         }
@@ -245,6 +246,7 @@ pub fn check_set(info: &SetInfo, reps: usize, c: &mut Choices, log: &mut CaseLog
     let (want_ok, env) = should_parse(&info.texts).map_err(|e| Fail::new("HARNESS/c20-specparse", e))?;
     let n = info.texts.len();
     let perms = if n <= 4 { permutations(n) } else { permutations(n).into_iter().step_by(5).collect() };
+    let leading_dot = info.texts.iter().any(|t| t.contains("\".T") || t.contains("\".N"));
     let class = if info.nested_sibling_ref {
         "nested-definition-referenced-by-sibling"
     } else if info.nested_duplicate {
@@ -253,6 +255,11 @@ pub fn check_set(info: &SetInfo, reps: usize, c: &mut Choices, log: &mut CaseLog
         "top-level-duplicate"
     } else if info.dangling {
         "dangling-reference"
+    } else if leading_dot {
+        // a reference to a null-namespace type from inside a namespace: parsed as a name without
+        // namespace, which every later consumer re-qualifies with the enclosing namespace (the
+        // root cause of C10/null-namespace-inherited); the parse results are still compared
+        "null-namespace-reference"
     } else {
         "plain"
     };
@@ -369,7 +376,7 @@ pub fn check_set(info: &SetInfo, reps: usize, c: &mut Choices, log: &mut CaseLog
     let (perm_a, perm_b) = (&topo_perm, &topo_perm);
     for (perm, set) in [(perm_a, set_a), (perm_b, set_b)] {
         if let Err(e) = ResolvedSchema::new_with_schemata(set.iter().collect()) {
-            return Err(Fail::new(format!("C20/outputs-do-not-resolve/{class}"), format!("order {perm:?}: {e}")).with(sdetail(info, vec![])));
+            return Err(Fail::new(format!("C20/outputs-do-not-resolve/{}", if leading_dot { "null-namespace-reference" } else { class }), format!("order {perm:?}: {e}")).with(sdetail(info, vec![])));
         }
     }
     let md = min_depths(&env);
